@@ -501,7 +501,7 @@ def gen_guided(rng, nsteps, pfault, deep=False):
 
 
 def gen_cases(rng, tier, n=None, pfault=0.12, kind="history"):
-    n = n or (600 if tier == "quick" else 30000)
+    n = n or (600 if tier == "quick" else 10000)
     cases = []
     ct = class_table()
     old = signal.signal(signal.SIGALRM, _gen_alarm)
